@@ -25,6 +25,7 @@ import (
 	"github.com/olric-data/olric/internal/cluster/partitions"
 	"github.com/olric-data/olric/internal/discovery"
 	"github.com/olric-data/olric/internal/protocol"
+	"github.com/olric-data/olric/internal/verifhook"
 	"github.com/olric-data/olric/pkg/storage"
 	"github.com/vmihailenco/msgpack/v5"
 )
@@ -123,8 +124,14 @@ func (f *fragment) Move(part *partitions.Partition, name string, owners []discov
 		if err := cmd.Err(); err != nil {
 			return err
 		}
+		if verifhook.Enabled {
+			verifhook.Point("move.afterSend", f.service.rt.This().String(), owner.String())
+		}
 	}
 
+	if verifhook.Enabled {
+		verifhook.Point("move.beforeDrop", f.service.rt.This().String())
+	}
 	return i.Drop(index)
 }
 
